@@ -5,6 +5,7 @@ C02 stated about the translated decoders (`Code.arkDecode`, `Code.minDecode`: th
 import Decaf.Props.C02
 import Decaf.Lemmas.Formulas.ArkDecompress
 import Decaf.Lemmas.Formulas.MinDecompress
+import Decaf.Lemmas.Formulas.ConvForms
 
 namespace C02.Translated
 open Model Edwards Decaf
@@ -43,6 +44,34 @@ theorem rejects_minus_one_arkcode (h : SRContract sr) (bytes : List ℕ) (hv : l
 theorem rejects_minus_one_mincode (h : SRContract sr) (bytes : List ℕ) (hv : leBytes bytes = q - 1) :
     ¬ ∃ c, Code.minDecode sr bytes = .ok c := by
   rw [Code.minDecode_eq]; exact C02.rejects_minus_one h bytes hv
+
+/-- **every decoding entry point** (`TryFrom<&[u8]>`, `TryFrom<[u8; 32]>`, `TryFrom<Encoding>`, `TryFrom<&Encoding>` for
+`Element`, both backends; the lists are regenerated from the `impl` blocks on every run): over the translated decoder of
+either backend, slices give exactly `decodeSlice` (same verdict, same element, any other length the length error) and
+fixed-size inputs exactly `decode32` -/
+theorem entry_points (bytes : List ℕ) :
+    (∀ f ∈ (Gen.ConvForms.decodeSliceForms : List (String × ((List ℕ → Except DecErr Ext) → DecErr → DecErr → List ℕ → Except DecErr Ext))),
+        f.2 (Code.arkDecode sr) .length .encoding bytes = decodeSlice sr bytes ∧
+        f.2 (Code.minDecode sr) .length .encoding bytes = decodeSlice sr bytes) ∧
+    (∀ f ∈ (Gen.ConvForms.decodeFixedForms : List (String × ((List ℕ → Except DecErr Ext) → List ℕ → Except DecErr Ext))),
+        f.2 (Code.arkDecode sr) bytes = decode32 sr bytes ∧ f.2 (Code.minDecode sr) bytes = decode32 sr bytes) := by
+  have hs : ∀ d : List ℕ → Except DecErr Ext, d = decode32 sr →
+      (if bytes.length = 32 then d bytes else .error DecErr.length) = decodeSlice sr bytes := by
+    intro d hd; subst hd; unfold decodeSlice
+    by_cases h : bytes.length = 32 <;> simp [h]
+  have ha : Code.arkDecode sr = decode32 sr := by rw [Code.arkDecode_eq]
+  have hm : Code.minDecode sr = decode32 sr := by rw [Code.minDecode_eq]
+  refine ⟨fun f hf => ⟨?_, ?_⟩, fun f hf => ⟨?_, ?_⟩⟩
+  · rw [Formulas.ConvForms.decodeSliceForms_correct f hf]; exact hs _ ha
+  · rw [Formulas.ConvForms.decodeSliceForms_correct f hf]; exact hs _ hm
+  · rw [Formulas.ConvForms.decodeFixedForms_correct f hf, ha]
+  · rw [Formulas.ConvForms.decodeFixedForms_correct f hf, hm]
+
+/-- `TryFrom<&[u8]> for Encoding`: the 32 bytes themselves, or the length error -/
+theorem encoding_of_slice (bytes : List ℕ) :
+    ∀ f ∈ (Gen.ConvForms.encodingOfSliceForms : List (String × (DecErr → DecErr → List ℕ → Except DecErr (List ℕ)))),
+      f.2 .length .encoding bytes = if bytes.length = 32 then .ok bytes else .error .length :=
+  fun f hf => Formulas.ConvForms.encodingOfSliceForms_correct f hf _ _ bytes
 
 end C02.Translated
 
